@@ -1,4 +1,5 @@
 import P2sh.Model.Vm
+import P2sh.Model.Bcv
 import P2sh.Driver.Wire
 /-! Driver for op `vmrun <hex src> @@ <bytecode dump of the real compiler>`: the VM model runs the real bytecode. -/
 namespace P2sh.Driver.VmDrv
@@ -66,7 +67,11 @@ def run (line : String) : String :=
         | .error (.unmodelled _) => "MODEL-SKIP"
         | .error .fuel => "MODEL-SKIP"
         | .error .ok => "MODEL-SKIP"
-      result model "nopanic"
+      -- translation validation (C07/C08): the verified bytecode verifier runs on the real bytecode; a rejected
+      -- program turns the verdict into a line the implementation can never print
+      match Bcv.checkProgram bc.consts bc.main with
+      | .ok _ => result (model ++ " bcv=ok") "nopanic"
+      | .error e => result (model ++ " bcv=" ++ e) ("eq BCV-REJECTED " ++ e)
   | _ => "bad-op"
 
 end P2sh.Driver.VmDrv
